@@ -27,6 +27,8 @@ func checkC20(c *Ctx) {
 	c.checkUidCodec()
 	c.checkChannelSpellingInverse()
 	c.checkIdSpellings()
+	c.checkCtrlParamsDynamicType()
+	c.checkResultNotReallocated()
 	c.checkActingUserNotSession("C20.4d-p2p-name-of-acting-user", "p2p-name")
 }
 
@@ -623,12 +625,18 @@ func (c *Ctx) checkUidCodec() {
 			}
 		}
 		if ifi, ok := in.(*ssa.If); ok {
-			if a := core.NormCond(ifi.Cond); a.Op == token.LSS {
-				hasLess = true
+			// the two ids themselves are compared (conversions aside): an order computed from their
+			// difference wraps around for ids 2^63 or more apart
+			if a := core.NormCond(ifi.Cond); a.Op == token.LSS && len(pn.Params) == 2 {
+				x, y := core.Strip(a.X), core.Strip(a.Y)
+				p0, p1 := ssa.Value(pn.Params[0]), ssa.Value(pn.Params[1])
+				if (x == p0 && y == p1) || (x == p1 && y == p0) {
+					hasLess = true
+				}
 			}
 		}
 	})
-	r.Check(hasLess && nonEmpty >= 1 && emptyRet >= 1, "C20.4-id-codec", fk(pn)+": orders the two ids and yields \"\" for equal/zero ids", c.P.Pos(pn.Pos()), "", "the p2p name no longer depends on the order of the two ids only, or a name is produced for equal/zero ids")
+	r.Check(hasLess && nonEmpty >= 1 && emptyRet >= 1, "C20.4-id-codec", fk(pn)+": orders the two ids and yields \"\" for equal/zero ids", c.P.Pos(pn.Pos()), "", "the two ids are not ordered by comparing them directly (an order derived from arithmetic on them wraps around), or a name is produced for equal/zero ids")
 	// prefix tables
 	g2c := c.ssaFn("server/store/types", "GrpToChn")
 	c2g := c.ssaFn("server/store/types", "ChnToGrp")
